@@ -215,7 +215,7 @@ def check_valid_cell(case):
     if det_name == "StatThresholdAnomaliser":
         thr = getattr(det.change_detector_, "threshold_", None)
     if thr is not None and thr < 0:
-        return {"nontrivial": False, "classes": classes + ["negative_tuned_threshold_excluded"]}
+        classes.append("negative_threshold")  # asserted as well since D35 (the output must be well-formed whatever the sign)
     info = K.check_wellformed(det_name, params if det_name != "StatThresholdAnomaliser" else params, n, p, y)
     if len(yd) != n:
         raise Violation("transform does not return one row per sample", rows=len(yd), n=n)
